@@ -353,8 +353,11 @@ func (u *Universe) GenOp(rng *rand.Rand, m *Model, o GenOpts) *Op {
 					op.ResumeAt = append(op.ResumeAt, i)
 				}
 			}
-			if rng.IntN(10) == 0 {
+			switch rng.IntN(20) {
+			case 0, 1:
 				op.Digest = Digest([]byte("not the content"))
+			case 2:
+				op.Digest = DigestOther(data, rng.IntN(2) == 0)
 			}
 			// ask the registry for the offset (-1) instead of resuming at Size() — unless exactly one byte
 			// has been received at some resume point (the status Range header cannot express that)
@@ -451,8 +454,12 @@ func (u *Universe) genWriterOp(rng *rand.Rand, m *Model, repo string, o GenOpts)
 		fallthrough
 	default:
 		d := Digest(s.Data)
-		if rng.IntN(6) == 0 {
+		switch rng.IntN(12) {
+		case 0, 1:
 			d = Digest([]byte("wrong"))
+		case 2:
+			// the right content under another algorithm: not the digest the registry knows content by
+			d = DigestOther(s.Data, rng.IntN(2) == 0)
 		}
 		return &Op{Kind: "W.Commit", H: h, Digest: d}
 	}
